@@ -315,6 +315,12 @@ def gen_cxx(rng, nclasses, nfuncs, nsubst=1):
             defs.append("template void %s::%s<int>(int);" % (c, m))
             defs.append("template void %s::%s<%s*>(%s*);" % (c, m, c, c))
             want.add("::".join(full + [m]))
+        # conversion operators: uftrace's simplified form is operator(cast)
+        if rng.random() < 0.4:
+            for ct, cv in rng.sample([("int", ""), ("const char*", " const"), ("bool", " const"), ("long long", ""), ("double", " const &")], 2):
+                decls.append("operator %s()%s;" % (ct, cv))
+                defs.append("%s%s::operator %s()%s { return 0; }" % (head, q, ct, cv))
+            want.add("::".join(full + ["operator(cast)"]))
         # a nested class
         nested = []
         if rng.random() < 0.3:
@@ -361,6 +367,16 @@ def gen_cxx(rng, nclasses, nfuncs, nsubst=1):
     out.append("namespace %s {" % top)
     while nclasses > 0 or nfuncs > 0:
         emit_scope(1, [top])
+    # literal operators (simplified form operator""), an anonymous namespace (_GLOBAL__N_1) and static functions
+    for suf, ty in (("_" + ids.new(1, 5), "long double"), ("_" + ids.new(1, 5), "unsigned long long"), ("_" + ids.new(1, 5), "const char*")):
+        out.append("%s operator\"\" %s(%s x) { return x; }" % (ty, suf, ty))
+    want.add("::".join([top, 'operator""']))
+    an_c, an_m, an_f, st_f, user = ids.new(), ids.new(), ids.new(), ids.new(), ids.new()
+    out.append("namespace { struct %s { void %s(int); }; void %s::%s(int) {} void %s(char*) {} }" % (an_c, an_m, an_c, an_m, an_f))
+    out.append("static void %s(long) {}" % st_f)
+    out.append("void %s() { %s h; h.%s(1); %s(0); %s(1); }" % (user, an_c, an_m, an_f, st_f))
+    want.update(["::".join([top, "_GLOBAL__N_1", an_c, an_m]), "::".join([top, "_GLOBAL__N_1", an_f]),
+                 "::".join([top, st_f]), "::".join([top, user])])
     for _ in range(nsubst):
         sub = ids.new()
         out.append("namespace %s {" % sub)
@@ -406,6 +422,17 @@ def strip_targs(s):
     return "".join(out)
 
 
+def uftrace_form(name):
+    """the simplifications utils/demangle.c makes by design: conversion operators print as operator(cast), literal
+    operators as operator"", the anonymous namespace as _GLOBAL__N_1"""
+    name = name.replace("(anonymous namespace)", "_GLOBAL__N_1")
+    name = re.sub(r'operator"" \w+', 'operator""', name)
+    m = re.search(r"(^|::)operator (?!new|delete)", name)
+    if m:
+        name = name[:m.end() - 1] + "(cast)"
+    return name
+
+
 def cxx_corpus(ctx, nclasses, nfuncs, nsubst=1):
     """compile a generated translation unit with g++ and clang++; returns list of (mangled, want|None)"""
     rng = ctx.rng
@@ -432,7 +459,7 @@ def cxx_corpus(ctx, nclasses, nfuncs, nsubst=1):
     res = []
     unmatched = 0
     for m, f in zip(ms, filt):
-        red = strip_targs(f)
+        red = uftrace_form(strip_targs(f))
         if red in want:
             res.append((m.encode(), red.encode(), sorted(names[m])))
         else:
@@ -520,6 +547,55 @@ def std_corpus(ctx):
     return res
 
 
+RUST_ESC = {"SP": "@", "BP": "*", "RF": "&", "LT": "<", "GT": ">", "LP": "(", "RP": ")", "C": ",", "u20": " ", "u22": '"',
+            "u27": "'", "u2b": "+", "u3b": ";", "u3d": "=", "u5b": "[", "u5d": "]", "u7b": "{", "u7d": "}", "u7e": "~"}
+
+
+def rust_legacy_expected(m):
+    """expected simplified form of a rustc legacy symbol, following utils/demangle.c's documented conventions:
+    the 17h<hash> component is dropped, `$XX$` escapes and `..` are translated, a leading `_` of a component is kept
+    and ` as Trait` inside `<T as Trait>` is dropped.  None when the name is outside this (no oracle then)."""
+    if not m.startswith("_ZN") or not m.endswith("E"):
+        return None
+    comps, i, body = [], 3, m[:-1]
+    while i < len(body):
+        j = i
+        while j < len(body) and body[j].isdigit():
+            j += 1
+        if j == i:
+            return None
+        k = int(body[i:j])
+        if j + k > len(body):
+            return None
+        comps.append(body[j:j + k])
+        i = j + k
+    if len(comps) < 2 or not re.fullmatch(r"h[0-9a-f]{16}", comps[-1]):
+        return None
+    outs = []
+    for c in comps[:-1]:
+        o, pos = "", 0
+        while True:
+            d = c.find("$", pos)
+            if d < 0:
+                if ".." in c[pos:] and pos > 0:
+                    return None                   # text after the last escape is copied raw
+                if ".." in c and pos == 0:
+                    return None
+                o += c[pos:]
+                break
+            o += c[pos:d].replace("..", "::")
+            if c.startswith("$u20$as$u20$", d):
+                o += ">"
+                break
+            e = c.find("$", d + 1)
+            if e < 0 or c[d + 1:e] not in RUST_ESC:
+                return None
+            o += RUST_ESC[c[d + 1:e]]
+            pos = e + 1
+        outs.append(o)
+    return "::".join(outs)
+
+
 def rust_corpus(ctx, nfn):
     rng = ctx.rng
     ids = Ident(rng)
@@ -550,40 +626,52 @@ def rust_corpus(ctx, nfn):
                 want["::".join(path + [f])] = 1
     while len(want) < nfn:
         emit_mod(1, [crate])
+    # traits, generic impls, closures: names with $LT$ .. $GT$, $u20$as$u20$, `..`, {{closure}}
+    tr, st, pr, ar, gf, cf, dr = ("T" + ids.new(), "Q" + ids.new(), "P" + ids.new(), ids.new().lower(), ids.new().lower(),
+                                  ids.new().lower(), ids.new().lower())
+    lines += [
+        "pub trait %s { fn %s(&self) -> u32; fn dflt(&self) -> u32 { 7 } }" % (tr, ar),
+        "pub struct %s(pub u32); pub struct %s<T>(pub T, pub T);" % (st, pr),
+        "impl %s for %s { #[inline(never)] fn %s(&self) -> u32 { self.0 * self.0 } }" % (tr, st, ar),
+        "impl<T: Copy + Into<u64>> %s for %s<T> { #[inline(never)] fn %s(&self) -> u32 { (self.0.into() + self.1.into()) as u32 } }" % (tr, pr, ar),
+        "impl<'a> %s for &'a [u8] { #[inline(never)] fn %s(&self) -> u32 { self.len() as u32 } }" % (tr, ar),
+        "impl %s for (u8, i16) { #[inline(never)] fn %s(&self) -> u32 { 3 } }" % (tr, ar),
+        "impl %s for *const u8 { #[inline(never)] fn %s(&self) -> u32 { 4 } }" % (tr, ar),
+        "impl %s for [u32; 4] { #[inline(never)] fn %s(&self) -> u32 { 5 } }" % (tr, ar),
+        "#[inline(never)] pub fn %s<T: core::fmt::Debug>(t: T) -> usize { core::mem::size_of_val(&t) }" % gf,
+        "#[inline(never)] pub fn %s(v: &[u32]) -> u32 { v.iter().map(|x| x + 1).filter(|x| *x > 2).sum() }" % cf,
+        "#[inline(never)] pub fn %s() -> u32 { let p = %s(1u32, 2u32); let s: &[u8] = b\"ab\"; let a = [1u32; 4]; let q = 0 as *const u8;"
+        " %s(3).%s() + p.%s() + s.%s() + (1u8, 2i16).%s() + q.%s() + a.%s() + %s(1u8) as u32 + %s(\"x\") as u32 + %s(&[1, 2, 3]) + %s(1).dflt() }"
+        % (dr, pr, st, ar, ar, ar, ar, ar, ar, gf, gf, cf, st),
+    ]
     d = os.path.join(ctx.scratch, "rust")
     os.makedirs(d, exist_ok=True)
     rs = os.path.join(d, "lib.rs")
     open(rs, "w").write("#![allow(non_snake_case, non_camel_case_types, dead_code)]\n" + "\n".join(lines) + "\n")
     obj = os.path.join(d, "lib.o")
-    rc, o, e = sh(["rustc", "--crate-type=lib", "--crate-name", crate, "--emit=obj", "-o", obj, rs], timeout=120)
+    rc, o, e = sh(["rustc", "--crate-type=lib", "--crate-name", crate, "--emit=obj", "-C", "opt-level=0", "-o", obj, rs], timeout=120)
     if rc != 0:
-        ctx.log("rustc not usable here (%s); Rust names come from the hand-made list only" % e[-200:].strip())
+        ctx.log("rustc not usable here (%s); Rust names come from the hand-made list only" % e[-300:].strip())
         return []
     rc, o, e = sh(["nm", "--defined-only", obj], timeout=60)
     res = []
+    plain = escaped = 0
     for ln in o.splitlines():
         f = ln.split()
         if not f or not f[-1].startswith("_ZN"):
             continue
         m = f[-1]
-        comps, i, body = [], 3, m
-        ok = True
-        while i < len(body) and body[i] != "E":
-            j = i
-            while j < len(body) and body[j].isdigit():
-                j += 1
-            if j == i:
-                ok = False
-                break
-            k = int(body[i:j])
-            comps.append(body[j:j + k])
-            i = j + k
-        if not ok or not comps or not re.fullmatch(r"h[0-9a-f]{16}", comps[-1]):
-            res.append((m.encode(), None, ["rustc"]))
-            continue
-        q = "::".join(comps[:-1])
-        res.append((m.encode(), q.encode() if q in want else None, ["rustc"]))
-    ctx.extra["corpus_rust"] = {"symbols": len(res), "with_oracle": sum(1 for r in res if r[1] is not None)}
+        q = rust_legacy_expected(m)
+        if q is not None and "$" not in m and ".." not in m and q.startswith(crate + "::") and q not in want \
+                and not any(q.startswith(w + "::") for w in want) and q.split("::")[-1] not in (gf, cf, dr, "dflt"):
+            q = None                                  # a plain path the generator did not declare
+        if q is not None:
+            if "$" in m:
+                escaped += 1
+            else:
+                plain += 1
+        res.append((m.encode(), q.encode() if q is not None else None, ["rustc"]))
+    ctx.extra["corpus_rust"] = {"symbols": len(res), "with_oracle": plain + escaped, "with_escapes": escaped}
     return res
 
 
@@ -917,8 +1005,11 @@ def formal_name(rng):
 
     def nested_items(d):
         out = ""
-        if rng.random() < 0.5:
+        k = rng.random()
+        if k < 0.35:
             out += "S" + seq() + "_" + targs(d)
+        elif k < 0.6:
+            out += "S" + rng.choice("tabsiod") + targs(d)
         for _ in range(rng.randrange(0 if out else 1, 4)):
             out += (src(ident()) if rng.random() < 0.85 else "S" + seq() + "_") + targs(d)
         return out
@@ -926,20 +1017,35 @@ def formal_name(rng):
     def ty(d=0):
         q = "".join(rng.choice("rVKPROCG") for _ in range(rng.choice([0, 0, 0, 1, 1, 2, 3])))
         k = rng.random()
-        if k < 0.35:
+        if k < 0.3:
             return q + rng.choice(BUILTIN)
-        if k < 0.6:
+        if k < 0.5:
             return q + "S" + seq() + "_" + targs(d)
-        if k < 0.8:
+        if k < 0.6:
+            return q + "S" + rng.choice("absiod") + targs(d)
+        if k < 0.7:
+            return q + "St" + src(ident()) + targs(d)
+        if k < 0.82:
             return q + src(ident()) + targs(d)
         return q + "N" + nested_items(d) + "E"
+    if rng.random() < 0.12:                              # _Z St <source-name> [<targs>] <type>*
+        i = ident()
+        return ("_ZSt" + src(i) + targs(0) + "".join(ty() for _ in range(rng.choice([0, 1, 2, 3])))).encode(), ("std::" + i).encode()
     quals = rng.choice(["", "", "", "K", "V", "R", "O", "KR", "KO", "VK", "VKO"])
     scopes = [ident() for _ in range(rng.randrange(1, 5))]
     enc = ""
+    ABBR = {"t": "std", "a": "std::allocator", "b": "std::basic_string", "s": "std::basic_string<>", "i": "std::basic_istream",
+            "o": "std::basic_ostream", "d": "std::basic_iostream"}
+    names = []
+    if rng.random() < 0.3:
+        c = rng.choice("ttttabsiod")
+        enc += "S" + c + targs(0)
+        names.append(ABBR[c])
     for sc in scopes:
         enc += src(sc) + targs(0)
+        names.append(sc)
     k = rng.random()
-    name = "::".join(scopes)
+    name = "::".join(names)
     if k < 0.15:
         enc += "C" + rng.choice("123")
         name += "::" + scopes[-1]
@@ -952,6 +1058,34 @@ def formal_name(rng):
         name += "::operator" + OPNAMES[op]
     tys = "".join(ty() for _ in range(rng.choice([0, 1, 1, 2, 3, 5, 8])))
     return ("_ZN" + quals + enc + "E" + tys).encode(), name.encode()
+
+
+def formal_rust(rng):
+    """a name of the grammar of theorem C13_roundtrip_rust_escapes_partial; expected value from rust_legacy_expected"""
+    def txt(lo=0):
+        return "".join(rng.choice("abcdefgxyzABCXYZ_0123456789") for _ in range(rng.randrange(lo, 7)))
+
+    def block():
+        return "".join(txt() + ".." for _ in range(rng.choice([0, 0, 1, 2, 3]))) + txt()
+    comps = []
+    for _ in range(rng.randrange(1, 4)):
+        k = rng.random()
+        if k < 0.4:
+            c = rng.choice("abcxyz_") + txt()
+        else:
+            c = ""
+            for _ in range(rng.randrange(1 if k < 0.8 else 0, 4)):
+                c += block() + "$" + rng.choice(sorted(RUST_ESC)) + "$"
+            if k < 0.8:
+                c += rng.choice(["", txt(), txt() + "." + txt()])
+            else:
+                c += block() + "$u20$as$u20$" + rng.choice(["", "core..fmt..Debug$GT$", "x$LT$y", "a..b$"])
+            if not c or c[0].isdigit() or "$u20$as$u20$" in c.split("$u20$as$u20$", 1)[0]:
+                c = "_" + c
+        comps.append(c)
+    h = "h" + "".join(rng.choice("0123456789abcdef") for _ in range(16))
+    m = "_ZN" + "".join("%d%s" % (len(c), c) for c in comps) + "17" + h + "E"
+    return m, rust_legacy_expected(m)
 
 
 def deep_names(depth):
@@ -1156,19 +1290,25 @@ def gen_cases(ctx):
         add(n, None, "unit-test")
     for m, want, comps in cxx_corpus(ctx, ctx.n(10, 40), ctx.n(8, 30), ctx.n(1, 4)):
         add(m, want, "corpus:" + "+".join(comps))
-    for m, want, comps in std_corpus(ctx):
+    stdn = std_corpus(ctx)
+    if not ctx.thorough() and len(stdn) > 260:          # quick tier: a sample (evaluation time is per name)
+        stdn = rng.sample(stdn, 260)
+    for m, want, comps in stdn:
         add(m, want, "corpus-std:" + "+".join(comps))
     for m, want, comps in rust_corpus(ctx, ctx.n(8, 25)):
         add(m, want, "corpus:rustc")
     for m, want in RUST_HANDMADE:
         add(m, want, "rust-handmade")
-    for _ in range(ctx.n(150, 2500)):
+    for _ in range(ctx.n(150, 1800)):
         m, want = formal_name(rng)
         add(m, want, "formal-mangler")
+    for _ in range(ctx.n(80, 1000)):
+        m, want = formal_rust(rng)
+        add(m.encode(), want.encode() if want is not None else None, "formal-rust")
     base = [c["name"] for c in cases]
     # (b) grammar
     g = Gram(rng, 4)
-    for _ in range(ctx.n(450, 5000)):
+    for _ in range(ctx.n(450, 4000)):
         g.maxd = rng.choice([1, 2, 3, 4, 6])
         add(g.symbol(), None, "grammar")
     for d in (1, 2, 30, 40):
@@ -1176,7 +1316,7 @@ def gen_cases(ctx):
             add(n, None, "deep")
     gram = [c["name"] for c in cases if c["origin"] in ("grammar", "deep")]
     # (c) mutation
-    for _ in range(ctx.n(900, 14000)):
+    for _ in range(ctx.n(650, 10000)):
         s = rng.choice(base) if rng.random() < 0.55 else rng.choice(gram)
         for _ in range(rng.choice([1, 1, 1, 2, 3])):
             s = mutate(rng, s)
@@ -1273,7 +1413,9 @@ def run(ctx):
     common_meta(ctx)
     objdir, exe = setup(ctx)
     cases = gen_cases(ctx)
+    ctx.log("generated %d cases" % len(cases))
     res = run_and_eval(ctx, exe, cases, "cases")
+    ctx.log("evaluated")
     # (d) idempotence: every distinct plain result is a case of its own
     seen = set(c["name"] for c in cases)
     fed = []
@@ -1296,8 +1438,170 @@ def run(ctx):
             ctx.case(key=nm, nontrivial=nontriv, tags=tags_of(nm, c["impl"]) + ["origin:" + c["origin"].split(":")[0].split(" ")[0]],
                      sample=smp, size=len(nm))
     ctx.extra["cases_with_expected_name"] = sum(1 for c in cases if c["want"] is not None)
+    ctx.log("fed-back %d evaluated" % len(fed))
     judge(ctx, cases, res)
     judge(ctx, fed, res2, " (idempotence)")
+    cli_tie(ctx, objdir, cases)
+    ctx.log("command-line tie done")
+    e2e(ctx, objdir)
+
+
+# ---------------------------------------------------------------- the command-line tool and the symbol loader
+SAN_ENV = {"ASAN_OPTIONS": "detect_leaks=1:abort_on_error=0", "UBSAN_OPTIONS": "halt_on_error=1:print_stacktrace=0",
+           "LSAN_OPTIONS": "exitcode=23"}
+
+
+def _run_tool(tool, args, data):
+    env = dict(os.environ)
+    env.update(SAN_ENV)
+    try:
+        p = subprocess.run([tool] + args, input=data, stdout=subprocess.PIPE, stderr=subprocess.PIPE, env=env, timeout=120)
+        return p.returncode, p.stdout, p.stderr.decode(errors="replace")
+    except subprocess.TimeoutExpired:
+        return 124, b"", "timeout"
+
+
+def cli_tie(ctx, objdir, cases):
+    """misc/demangler (ASan + LeakSanitizer build) on the same names: --simple must print exactly what demangle()
+    returned in the harness, --no must echo, --full must print what c++filt prints for compiler-produced names and
+    echo names that are not of mangled form; none of them may crash, leak or hang"""
+    tool = os.path.join(objdir, "misc", "demangler")
+    if not os.path.exists(tool):
+        ctx.broken("misc/demangler was not built in %s" % objdir)
+        return
+    rng = ctx.rng
+    ok = [c for c in cases if c["impl"][0] == "S" and b"\n" not in c["name"] and b"\r" not in c["name"] and len(c["name"]) < 4000]
+    corpus = [c for c in ok if c["want"] is not None and c["origin"].startswith("corpus")]
+    other = [c for c in ok if c["want"] is None]
+    pick = corpus[:ctx.n(250, 3000)] + rng.sample(other, min(len(other), ctx.n(400, 6000)))
+    data = b"".join(c["name"] + b"\n" for c in pick)
+
+    def lines(out):
+        ls = out.split(b"\n")
+        return ls[:-1] if ls and ls[-1] == b"" else ls
+    for mode in ("--simple", "--no", "--full"):
+        rc, out, err = _run_tool(tool, [mode], data)
+        got = lines(out)
+        bad = None
+        if rc != 0 or len(got) != len(pick):
+            bad = {"mode": mode, "rc": rc, "stderr": err[-1500:], "lines_out": len(got), "lines_in": len(pick)}
+            what = "misc/demangler %s failed on %d names (rc=%s: %s)" % (mode, len(pick), rc, (err.strip().splitlines() or ["?"])[0][:200])
+            if "LeakSanitizer" in err:
+                what = "misc/demangler %s leaks memory: %s" % (mode, " ".join(err.split()[:40])[:300])
+        else:
+            for c, g in zip(pick, got):
+                want = c["impl"][1] if mode == "--simple" else c["name"] if mode == "--no" else None
+                if mode == "--full":
+                    body = c["name"]
+                    if not body.startswith(b"_Z"):
+                        want = c["name"]
+                if want is not None and g != want:
+                    bad = {"mode": mode, "name": js(c["name"]), "name_hex": c["name"].hex(), "printed": js(g), "expected": js(want)}
+                    what = "misc/demangler %s prints %r for %r, expected %r" % (mode, g, c["name"], want)
+                    break
+            if bad is None and mode == "--full" and corpus:
+                cc = [c for c in pick if c["want"] is not None and c["origin"].startswith("corpus:") and "rustc" not in c["origin"]]   # C++ only: c++filt demangles rustc names as Rust
+                rc2, o2, e2 = sh(["c++filt"], input="".join(js(c["name"]) + "\n" for c in cc), timeout=60)
+                idx = {id(c): g for c, g in zip(pick, got)}
+                for c, f in zip(cc, o2.splitlines()):
+                    if js(idx[id(c)]) != f:
+                        bad = {"mode": mode, "name": js(c["name"]), "name_hex": c["name"].hex(), "printed": js(idx[id(c)]), "expected": f}
+                        what = "misc/demangler --full prints %r for %r, c++filt prints %r" % (idx[id(c)], c["name"], f)
+                        break
+        ctx.case(key=("cli", mode, len(pick)), tags=["cli:" + mode], nontrivial=True)
+        if bad is not None:
+            ctx.violation("C13 violated (command-line tool): " + what, bad, True)
+    # argv mode
+    av = [c for c in corpus[:40] if not c["name"].startswith(b"-")]
+    if av:
+        rc, out, err = _run_tool(tool, [js(c["name"]) for c in av], b"")
+        got = lines(out)
+        if rc != 0 or got != [c["impl"][1] for c in av]:
+            ctx.violation("C13 violated (command-line tool): misc/demangler NAME... differs from demangle() (rc=%s)" % rc,
+                          {"mode": "argv", "rc": rc, "stderr": err[-800:]}, True)
+        ctx.case(key=("cli", "argv", len(av)), tags=["cli:argv"], nontrivial=True)
+    ctx.extra["cli_names"] = len(pick)
+
+
+E2E_SRC = """namespace {ns} {{ struct {C} {{ int n; {C}(); ~{C}(); int {m1}(int) &; int {m2}(long) const; int operator+(int) const; int operator[](int);
+ template<class T> T {tm}(T t) {{ return t + n; }} operator int() const; static int {sm}(char); }};
+{C}::{C}() : n(1) {{}} {C}::~{C}() {{}} int {C}::{m1}(int x) & {{ n += x; return n; }} int {C}::{m2}(long x) const {{ return n + (int)x; }}
+int {C}::operator+(int x) const {{ return n + x; }} int {C}::operator[](int x) {{ return n * x; }} {C}::operator int() const {{ return n; }}
+int {C}::{sm}(char c) {{ return c; }}
+namespace {{ int {hid}(int x) {{ return x * 2; }} }}
+namespace {ns2} {{ template<class T, class U> T {gen}(T a, U b) {{ return a + (T)b; }} struct {D} {{ void {dm}({ns}::{C}&, {ns}::{C}*, const {ns}::{C}&); }};
+void {D}::{dm}({ns}::{C}&, {ns}::{C}*, const {ns}::{C}&) {{}} }}
+int {run}() {{ {C} c; c.{m1}(2); int r = c.{m2}(3); r += c + 3; r += c[2]; r += c.{tm}<long>(4); r += {hid}(r); r += {ns2}::{gen}<int, long>(1, 2);
+ r += (int)c; r += {C}::{sm}('a'); {ns2}::{D} d; d.{dm}(c, &c, c); return r; }} }}
+int main() {{ return {ns}::{run}() == 0; }}
+"""
+
+
+def e2e(ctx, objdir):
+    """names printed by `uftrace replay` for a compiled test object: the symbol loader of utils/symbol.c (ELF symbol table
+    -> .sym file -> demangle at load) end to end, in the three --demangle modes"""
+    rng = ctx.rng
+    ids = Ident(rng)
+    f = {k: ids.new(2, 9) for k in ("ns", "ns2", "C", "D", "m1", "m2", "tm", "sm", "hid", "gen", "dm", "run")}
+    d = os.path.join(ctx.scratch, "e2e")
+    os.makedirs(d, exist_ok=True)
+    src = os.path.join(d, "p.cc")
+    open(src, "w").write(E2E_SRC.format(**f))
+    exe = os.path.join(d, "p")
+    rc, o, e = sh(["g++", "-std=c++17", "-pg", "-O0", "-o", exe, src], timeout=120)
+    if rc != 0:
+        ctx.broken("e2e generator produced C++ that g++ rejects", e[-1500:])
+        return
+    uft = os.path.join(objdir, "uftrace")
+    data = os.path.join(d, "data")
+    env = {"ASAN_OPTIONS": "detect_leaks=0"}
+    rc, o, e = sh(["timeout", "60", uft, "record", "--no-pager", "--no-event", "--libmcount-path=" + objdir, "-d", data, exe],
+                  timeout=90, env=env, cwd=d)
+    if rc != 0:
+        ctx.broken("e2e: uftrace record failed (rc=%d)" % rc, (o + e)[-1500:])
+        return
+    n, n2, C, D = f["ns"], f["ns2"], f["C"], f["D"]
+    q = n + "::" + C + "::"
+    want = ["main", n + "::" + f["run"], q + C, q + f["m1"], q + f["m2"], q + "operator+", q + "operator[]", q + f["tm"],
+            n + "::_GLOBAL__N_1::" + f["hid"], n + "::" + n2 + "::" + f["gen"], q + "operator(cast)", q + f["sm"],
+            n + "::" + n2 + "::" + D + "::" + f["dm"], q + "~" + C]
+
+    def names_of(mode):
+        rc, o, e = sh(["timeout", "60", uft, "replay", "--no-pager", "-d", data, "-f", "none", "--demangle=" + mode],
+                      timeout=90, env=env, cwd=d)
+        if rc != 0:
+            return None, (o + e)[-800:]
+        out = []
+        for ln in o.splitlines():
+            t = ln.strip()
+            if not t or t.startswith("}"):
+                continue
+            t = re.sub(r"\s*(\{|;)$", "", t)
+            out.append(t)
+        return out, ""
+    disp = lambda w: w if w.endswith(")") else w + "()"      # replay prints NAME() unless NAME already ends in ")"
+    want = [disp(w) for w in want]
+    got, err = names_of("simple")
+    ctx.case(key=("e2e", "simple"), tags=["e2e:replay-simple"], nontrivial=True,
+             sample={"replayed_names": got[:6] if got else None, "expected": want[:6]})
+    if got != want:
+        ctx.violation("C13 violated (end to end): `uftrace replay` of a compiled C++ program prints %r, the declared functions are %r"
+                      % (got, want), {"mode": "e2e-simple", "printed": got, "expected": want, "source": E2E_SRC.format(**f), "stderr": err}, True)
+    raw, err = names_of("no")
+    ctx.case(key=("e2e", "no"), tags=["e2e:replay-no"], nontrivial=True)
+    raw = None if raw is None else [x[:-2] if x.endswith("()") else x for x in raw]
+    if raw is None or len(raw) != len(want) or not all(x == "main" or x.startswith("_Z") for x in raw):
+        ctx.violation("C13 violated (end to end): `uftrace replay --demangle=no` does not print the mangled names: %r" % (raw,),
+                      {"mode": "e2e-no", "printed": raw, "stderr": err}, True)
+        return
+    rc, o, e = sh(["c++filt"], input="\n".join(raw) + "\n", timeout=60)
+    full_want = [x.rstrip() for x in o.splitlines()]
+    full, err = names_of("full")
+    ctx.case(key=("e2e", "full"), tags=["e2e:replay-full"], nontrivial=True)
+    full_want = [disp(x) for x in full_want]
+    if full != full_want:
+        ctx.violation("C13 violated (end to end): `uftrace replay --demangle=full` prints %r, c++filt gives %r" % (full, full_want),
+                      {"mode": "e2e-full", "printed": full, "expected": full_want, "stderr": err}, True)
 
 
 def replay(ctx, obj):
